@@ -126,6 +126,11 @@ Definition C18_pong_ok (tok : option bytes) (lines : list bytes) : bool :=
   | None => match filter is_pong_line lines with [] => true | _ => false end
   end.
 
+(* a burst of PINGs (more than the input queue holds, while the event loop is busy): every
+   one of them is answered, once, in order *)
+Definition C18_busy_ok (toks : list bytes) (lines : list bytes) : bool :=
+  list_beq (filter is_pong_line lines) (map (fun t => s_PONG ++ s_sp_colon ++ t) toks).
+
 (* PING from the client: seen within the window iff PingFreq > 0; payload all digits *)
 Definition C18_pings_ok (freq : Z) (present wellformed : bool) : bool :=
   Bool.eqb present (freq >? 0) && wellformed.
